@@ -560,8 +560,8 @@ def evaluate(chk, r, out, stats):
 def t_history_refusal(item):
     """A request that a NEW driver refuses (heterogeneous batch for a method that needs a homogeneous one) handed to a
     driver that served a homogeneous batch of the same shape before - in a single point, or as the driver of an MD run
-    (`md.esdriver`).  Differential oracle: the used driver must give the outcome of the new driver (refused -> refused;
-    accepted -> same excitation energies)."""
+    (`md.esdriver`).  Differential oracle: what the new driver refuses the used driver must refuse; what both accept must
+    agree (a used driver refusing loudly what a new one accepts is counted, not reported)."""
     import copy as _copy
 
     import torch
@@ -625,7 +625,11 @@ def history_refusals(chk, tier, seed):
             continue
         f, u = r["fresh"], r["used"]
         chk.case(key, nontrivial=True, outcome=f"{f['status']}|{u['status']}")
-        if f["status"] != u["status"]:
+        if f["status"] == "returned" and u["status"] == "raised":
+            # the statement only demands that what must be refused IS refused; a driver that went through an MD run (which
+            # switches its settings to analytical excited-state gradients) refusing a request a new driver accepts is loud
+            chk.rejected += 1
+        elif f["status"] != u["status"]:
             chk.violation(desc, f"{key}: a new driver {f['status']} ({f.get('exc')}) the heterogeneous request, the driver that served a homogeneous batch before {u['status']} ({u.get('exc')}) it", replay={"history": list(it)})
         elif f["status"] == "returned" and f.get("cis") is not None and u.get("cis") is not None:
             d = float(np.nanmax(np.abs(np.asarray(f["cis"])[:, :2] - np.asarray(u["cis"])[:, :2])))  # the two requested states
@@ -667,7 +671,7 @@ def replay(payload):
     if "history" in r:
         o = t_history_refusal(tuple(r["history"]))
         print("  ", o)
-        return "excluded" in o or o["fresh"]["status"] == o["used"]["status"]
+        return "excluded" in o or o["fresh"]["status"] == o["used"]["status"] or o["used"]["status"] == "raised"
     out = execute(r)
     print("  ", {k: v for k, v in out.items() if k not in ("t",)})
     st = out["status"]
